@@ -290,6 +290,7 @@ func TestC15(t *testing.T) {
 	runSeqTier(t, rep, env)
 	runDuplexTier(t, rep, env)
 	runLinkTier(t, rep, env)
+	runLinkDuplexTier(t, rep, env)
 	runFailedSetupTier(t, rep, env)
 	if err := rep.Finish(env); err != nil {
 		t.Fatal(err)
